@@ -114,3 +114,49 @@ fn c18_insert_delete() {
         kani::cover!(n == 2, "cover.insert.two_existing");
     }
 }
+
+// ================================================================================================
+// C18 — Entry::delete under interference: the mark is set ATOMICALLY (no lost update)
+// ================================================================================================
+static mut DEL_SLOT: usize = 0;        // address of the entry's `next` word
+static mut DEL_ENV_BUDGET: u32 = 0;
+static mut DEL_ENV_LAST: usize = 0;    // the value the environment last wrote (or the initial one)
+/// environment: a concurrent traversal unlinks this entry's removed successor, i.e. rewrites `next`
+unsafe fn del_env(slot: *mut usize) {
+    if slot as usize != DEL_SLOT || DEL_ENV_BUDGET == 0 || !kani::any::<bool>() { return; }
+    DEL_ENV_BUDGET -= 1;
+    let v: usize = kani::any();
+    kani::assume(v & 7 == 0 && v & 1 == 0);           // another (unmarked) successor pointer
+    kani::assume(*slot & 1 == 0);                      // traversals only CAS an unmarked predecessor
+    *slot = v;
+    DEL_ENV_LAST = v;
+}
+fn d_load<T: Copy>(a: &atomic::Atomic<T>, _o: core::sync::atomic::Ordering) -> T {
+    unsafe { let s = a as *const atomic::Atomic<T> as *mut usize; del_env(s); core::mem::transmute_copy(&*s) }
+}
+fn d_store<T: Copy>(a: &atomic::Atomic<T>, v: T, _o: core::sync::atomic::Ordering) {
+    unsafe { let s = a as *const atomic::Atomic<T> as *mut usize; del_env(s); *s = core::mem::transmute_copy(&v); }
+}
+fn d_fetch_or(a: &core::sync::atomic::AtomicUsize, v: usize, _o: core::sync::atomic::Ordering) -> usize {
+    unsafe { let s = a as *const core::sync::atomic::AtomicUsize as *mut usize; del_env(s); let old = *s; *s = old | v; old }
+}
+#[kani::proof]
+#[kani::stub(atomic::Atomic::load, d_load)]
+#[kani::stub(atomic::Atomic::store, d_store)]
+#[kani::stub(std::sync::atomic::Atomic::<usize>::fetch_or, d_fetch_or)]
+fn c18_delete_is_atomic() {
+    unsafe {
+        let e = mk(0);
+        let succ0: usize = kani::any();
+        kani::assume(succ0 & 7 == 0);
+        *slot(&e.entry.next) = succ0;
+        DEL_SLOT = slot(&e.entry.next) as usize;
+        DEL_ENV_LAST = succ0;
+        DEL_ENV_BUDGET = 2;
+        let g = core::mem::ManuallyDrop::new(unprotected());
+        e.entry.delete(&g);
+        // whatever the environment wrote last before my marking step survives, with the mark added
+        assert!(next_word(&e.entry) == DEL_ENV_LAST | 1, "C18.delete.marks_atomically_no_lost_unlink");
+        kani::cover!(DEL_ENV_BUDGET < 2, "cover.delete.interfered");
+    }
+}
